@@ -32,12 +32,12 @@ def opsLsb0 : Handler := fun st toks =>
     | none => pure (st, specMark "panic" (if fits then "ok" else "panic"))
   | ["stats", d] => do
     let (_, sl) ← b? d
-    pure (st, specMark (showStats (Bitmap.statistics sl.m) (Bitmap.serializedSize sl.m))
+    pure (st, specMark (showStats (Bitmap.statisticsM sl.m) (Bitmap.serializedSize sl.m))
                        (showStatsSpec (Spec.stats sl.s)))
   | ["debug", d] => do
     let (_, sl) ← b? d
     let spec := showDebug (Spec.debugString sl.s)
-    match Bitmap.debugFmt sl.m with
+    match Bitmap.debugFmtM sl.m with
     | some s => pure (st, specMark (showDebug s) spec)
     | none => pure (st, specMark "panic" spec)
   | ["serde_events", d] => do
